@@ -349,6 +349,22 @@ CallView(s) ==
       [] s.dkind = "zero" ->
            View("runtime", None, FALSE, "-", None, "-", "-", None, None, None, FALSE)
 
+\* C12: call() and execute() deliver the identical final result.  The call-style
+\* delivery is a function of the execute-style one (up to whether an AbortRetryError
+\* is the operation's own object, which an outcome does not carry).
+CallOfExec(v) ==
+    IF v.kind = "cancel" THEN v
+    ELSE IF v.ok THEN View("ret", v.id, TRUE, "-", None, "-", "-", None, None, None, FALSE)
+    ELSE IF v.stop = "ABORTED" THEN View("abort", None, FALSE, "-", None, "-", "-", None, None, None, FALSE)
+    ELSE IF v.attempts = 0 THEN View("runtime", None, FALSE, "-", None, "-", "-", None, None, None, FALSE)
+    ELSE IF v.cause = "exception" /\ v.stop # "SCHEDULED"
+         THEN View("exc", v.lexc, FALSE, "-", None, "-", "-", None, None, None, TRUE)
+    ELSE View("exhausted", None, FALSE, v.stop, v.attempts, v.lastk, "-", v.lexc, v.lres, v.next, FALSE)
+
+Related(callv, execv) ==
+    LET x == CallOfExec(execv) IN
+    IF x.kind = "abort" THEN callv.kind = "abort" ELSE callv = x
+
 Deliver(c, s) ==
     IF s.pc = "deliver" THEN
         { <<EvDeliver(m, IF m = "call" THEN CallView(s) ELSE ExecView(s), s.now),
